@@ -124,13 +124,13 @@ def run(ctx):
     er = vlib.tlc_must_pass(ctx, "MCLockup", "MCLockup_emit.cfg", workers=8, timeout=3000)
     if len(er.printed) < 200:
         raise Broken("TLC emitted only %d behaviours" % len(er.printed))
-    shp, total_shapes = shapes_from_tlc(er.printed, 4 if quick else 60, ctx.seed)
+    shp, total_shapes = shapes_from_tlc(er.printed, 3 if quick else 40, ctx.seed)
     cov.update(tlc_behaviours_emitted=len(er.printed), tlc_distinct_shapes=total_shapes, shapes_replayed=len(shp))
     sf = ctx.work / "shapes.ndjson"
     vlib.write_ndjson(sf, shp)
     runs = [("shapes", ["-seed", ctx.seed, "-shapes", sf, "-bonus"], {"plan": "shapes", "shapes": shp})]
-    nr = 1 if quick else 5
-    steps = 36 if quick else 70
+    nr = 1 if quick else 4
+    steps = 30 if quick else 60
     runs.append(("rand", ["-seed", ctx.seed * 100 + 1, "-steps", steps, "-n", nr], {"plan": "random", "seed": ctx.seed * 100 + 1}))
     runs.append(("bonus", ["-seed", ctx.seed * 100 + 2, "-steps", steps, "-n", nr, "-bonus"], {"plan": "random-bonus", "seed": ctx.seed * 100 + 2}))
     results = list(pool.map(lambda r: (r, run_driver(ctx, drv, r[0], [str(a) for a in r[1]])), runs))
